@@ -5,7 +5,7 @@ property listed in their contract's `props`.
 """
 OWNED = [
     (r"/exc_safe\.", ["C09"]),
-    (r"Channel\.validate_duration/ensures\.at_most_max", ["C01"]),
+    (r"(Channel\.validate_duration|_ChannelSchedule\.adjust_duration)/ensures\.at_most_max", ["C01"]),
     (r"add_target/ensures\.same-targets-inserts-nothing", ["C10"]),
     (r"ensures\.INV\.retarget-(after-fall|interval)", ["C10"]),
     (r"ensures\.INV\.fixed-retarget-time", ["C10"]),
@@ -26,5 +26,5 @@ PROPS = {
     "C03": dict(lemmas=["L-first-retarget"], not_decided=["fall time of a past pulse is taken in the other channel's current EOM mode or non-EOM mode, whichever is shorter (fall_min)"],
                 assumptions=["A-EOMBW EOM rise time <= channel rise time", "A-DICT-ORDER iteration order of the schedule is unconstrained"]),
     "C10": dict(lemmas=[], not_decided=["phase-jump clause with phase-drift correction (EOM) is stated for drift-free adds only"], assumptions=[]),
-    "C09": dict(lemmas=[], not_decided=["replay determinism as a theorem; draw()"], assumptions=[]),
+    "C09": dict(only=r"/(exc_safe|frame)\.", lemmas=[], not_decided=["replay determinism as a theorem; draw()"], assumptions=[]),
 }
